@@ -9,6 +9,11 @@ spec/C17/Fresh.tla     R-spec: artefacts, their secret-bearing fields, Construct
                              method of the object), with restarts; -simulate for free interleavings of Construct / Reconfigure / Export / Restart
  FreshTrace.tla        TV  : batch trace validation of id-canonicalised histories observed on the real code
 
+Kinds of artefacts (menu of Fresh.tla): SB2.0 / SB2.1 through the classes and through load_from_config, SB2.1 from a COMMAND FILE with keyblob
+definitions and keywrap / encrypt statements (SB21KW: BD text and YAML form; the filler of every wrapped OTFAD key blob is a secret-bearing
+field, read by decoding the exported file with the independent boot-ROM executor of C04 and unwrapping the keywrap loads with the key-blob
+loader of the C13 hardware model), encrypted MBI, OTFAD / IEE / BEE key blobs, HAB (configuration and legacy class), load_hex_string.
+
 Python only EXECUTES: every interpreter segment of a history runs in a fresh interpreter (harness/c17_child.py) in which
 spsdk.crypto.rng.token_bytes is wrapped before anything else of spsdk is imported; secrets are read from public attributes and
 from the exported bytes (independent readers), every distinct byte string is replaced by the index of its first occurrence, and
@@ -35,10 +40,11 @@ CHILD = os.path.join(os.path.dirname(os.path.abspath(__file__)), "c17_child.py")
 
 # the menu of spec/C17/Fresh.tla (kind, how, user-supplied fields, base) is printed by TLC (GEN histories carry it); this copy is
 # only used to build the long homogeneous / mixed histories and is cross-checked against the histories TLC emits
-FIELDS = {"SB20": ["dek", "mac", "nonce", "hpad", "kpad"], "SB21": ["dek", "mac", "nonce", "hpad"], "MBI": ["key", "ctr_iv"],
+FIELDS = {"SB20": ["dek", "mac", "nonce", "hpad", "kpad"], "SB21": ["dek", "mac", "nonce", "hpad"],
+          "SB21KW": ["dek", "mac", "nonce", "hpad", "filler1", "filler2"], "MBI": ["key", "ctr_iv"],
           "OTFAD": ["key", "ctr", "filler"], "IEE": ["key1", "key2"], "IEECTR": ["key1", "key2"],
           "BEE": ["sw_key", "counter", "kib_key", "kib_iv"], "HAB": ["dek", "nonce"], "HABRT": ["dek", "nonce"], "HEX": ["value"]}
-NARROW = {"OTFAD": ["filler"]}       # < 64 bit: asserted only in histories with few constructions (birthday bound, see assumptions)
+NARROW = {"OTFAD": ["filler"], "SB21KW": ["filler1", "filler2"]}   # < 64 bit: asserted only in histories with few constructions (birthday bound, see assumptions)
 NARROW_MAX_ARTS = 8
 RECONF = {"MBI"}                     # Reconf of Fresh.tla (cross-checked against the histories TLC emits): the object can be configured again
 BUILDS = ("Construct", "Reconfigure")  # the steps of a history that build an artefact
@@ -398,7 +404,15 @@ def canary(v):
             # [12..17] one object configured again and again: self-chosen IV, self-chosen again, the user's IV, self-chosen again
             con(6, "MBI", "config", ["key"], {"key": 10, "ctr_iv": 12}), exp(6, {"key": 10, "ctr_iv": 12}),
             rcf(7, 6, "MBI", ["key"], {"key": 10, "ctr_iv": 13}), exp(7, {"key": 10, "ctr_iv": 13}),
-            rcf(8, 7, "MBI", ["key", "ctr_iv"], {"key": 10, "ctr_iv": 11}), rcf(9, 8, "MBI", ["key"], {"key": 10, "ctr_iv": 14})]
+            rcf(8, 7, "MBI", ["key", "ctr_iv"], {"key": 10, "ctr_iv": 11}), rcf(9, 8, "MBI", ["key"], {"key": 10, "ctr_iv": 14}),
+            # [18..24] SB2.1 files from command files with two keywrap statements: everything self-chosen; DEK / MAC / nonce the user's, twice
+            con(10, "SB21KW", "bd", [], {"dek": 15, "mac": 16, "nonce": 17}),
+            exp(10, {"dek": 15, "mac": 16, "nonce": 17, "hpad": 18, "filler1": 19, "filler2": 20}),
+            con(11, "SB21KW", "config", ["dek", "mac", "nonce"], {"dek": 21, "mac": 22, "nonce": 23}),
+            exp(11, {"dek": 21, "mac": 22, "nonce": 23, "hpad": 24, "filler1": 25, "filler2": 26}),
+            con(12, "SB21KW", "config", ["dek", "mac", "nonce"], {"dek": 21, "mac": 22, "nonce": 23}),
+            exp(12, {"dek": 21, "mac": 22, "nonce": 23, "hpad": 27, "filler1": 28, "filler2": 29}),
+            exp(12, {"dek": 21, "mac": 22, "nonce": 23, "hpad": 27}, skip=("filler1", "filler2"))]
     cases = {"canary-good": good}
 
     def mutate(name, fn):
@@ -416,6 +430,10 @@ def canary(v):
     mutate("canary-bad-reconfigured-keeps-user-value", lambda t: t[17]["f"].update({"ctr_iv": 11}))  # configured again without IV, the explicit IV of before is still there
     mutate("canary-bad-reconfigured-object-exported-as-old", lambda t: t[15].update({"art": 6}))     # the object no longer holds the artefact it was configured away from
     mutate("canary-bad-reconfigure-of-fixed-kind", lambda t: t.insert(10, rcf(4, 3, "OTFAD", ["key"], {"key": 5, "ctr": 20})))  # no such step for kinds outside Reconf
+    mutate("canary-bad-keywrap-filler-shared", lambda t: t[23]["f"].update({"filler2": 19}))          # the wrapped key blob of another SB file (all else is the user's)
+    mutate("canary-bad-keywrap-filler-is-an-otfad-filler", lambda t: t[21]["f"].update({"filler1": 9}))  # the filler of a key blob built through the class
+    mutate("canary-bad-keywrap-filler-left-out", lambda t: t[19]["f"].pop("filler2"))                # one keywrap load not looked at, not declared as skipped
+    mutate("canary-bad-wide-field-skipped", lambda t: (t[24]["f"].pop("hpad"), t[24]["skip"].append("hpad")))  # only narrow fields may be left out
     traces = [{"id": k, "ev": e} for k, e in cases.items()]
     rej, _ = tv_checked(traces)
     want = set(cases) - {"canary-good"}
@@ -436,8 +454,12 @@ def canary_e2e(v, healthy):
     period = 64
     runs = [("e2e-const", homogeneous(("OTFAD", "ctor", []), 2), "const"), ("e2e-cycle", homogeneous(("BEE", "ctor", []), 40), f"cycle:{period}"),
             ("e2e-cycle-short", homogeneous(("BEE", "ctor", []), 10), f"cycle:{period}"),
-            ("e2e-reconf-const", reconfigured("MBI", [["key"], ["key"]]), "const")]
-    out = [execute(x) for x in runs]
+            ("e2e-reconf-const", reconfigured("MBI", [["key"], ["key"]]), "const"),
+            # a generator that answers every 4-byte request with the same value: two real SB2.1 files built from command files with keywrap
+            # statements (BD text, YAML form) then carry the same key-blob filler and nothing else in common
+            ("e2e-kw-filler", homogeneous(("SB21KW", "bd", []), 1) + [{"op": "Construct", "art": 2, "kind": "SB21KW", "how": "config", "ex": []},
+                                                                    {"op": "Export", "art": 2}], "const4")]
+    out = pmap(execute, runs, procs=len(runs), chunksize=1)
     for t, i in out:
         if t.get("failed"):
             if healthy:
@@ -454,13 +476,17 @@ def canary_e2e(v, healthy):
         # every value the generator handed out was distinct and still two artefacts carry the same one: decided by the normal path
         info["hist"], info["fake"], info["why"] = hist, fake, "canary-e2e-known-good"
         decide(v, [t], {hid: info}, "known-good history of the end-to-end canary (rejected by the spec)")
-    ok = "e2e-const" in rej and "e2e-cycle" in rej and not short_rejected and rej.get("e2e-reconf-const", (0,))[0] == 3
+    kw_t = next(t for t, _i in out if t["id"] == "e2e-kw-filler")
+    kw_ok = rej.get("e2e-kw-filler", (0,))[0] == 4 and {b[0] for b in culprits(kw_t, 4)[1]} == {"filler1", "filler2"}
+    ok = "e2e-const" in rej and "e2e-cycle" in rej and not short_rejected and rej.get("e2e-reconf-const", (0,))[0] == 3 and kw_ok
     if not ok and healthy and not short_rejected:
         raise Machinery(f"end-to-end canary failed: rejected {rej} (constant and period-64 generators must be rejected, a real MBI object configured "
-                        f"twice with a constant generator must be rejected at the Reconfigure event)")
+                        f"twice with a constant generator must be rejected at the Reconfigure event, two real SB2.1 files with keywrap statements and a "
+                        f"constant answer to 4-byte requests must be rejected at the second Export for the fillers only)")
     v.extra["canary_e2e"] = ((f"real OTFAD key blobs with a constant token_bytes rejected at event {rej['e2e-const'][0] + 1}; 40 real BEE headers with a "
                               f"period-64 token_bytes rejected at event {rej['e2e-cycle'][0] + 1} of {rej['e2e-cycle'][1]}; 10 headers (40 draws < 64) accepted; "
-                              f"a real MBI object configured twice with a constant token_bytes rejected at its Reconfigure event")
+                              f"a real MBI object configured twice with a constant token_bytes rejected at its Reconfigure event; two real SB2.1 files with "
+                              f"keywrap statements (BD text, YAML form) and a constant answer to 4-byte requests rejected at the second Export for filler1 / filler2 only")
                              if ok else
                              (f"known-good history (10 real BEE headers, {out[2][1].get('ndraws')} distinct draws) rejected by the spec: reported as a violation of this run"
                               if short_rejected and healthy else f"inconclusive on this tree (rejected: {sorted(rej)}); not enforced because histories were rejected"))
@@ -584,7 +610,7 @@ def run(tier):
     # ---- everything that does not depend on anything else runs at the same time: a warm-up interpreter (byte-code cache outside /repo,
     #      SPSDK database cache in the scratch directory), the canary, model checking of R-spec and I-spec, the four GEN runs
     warm_hist = [{"op": "Construct", "art": i + 1, "kind": k, "how": h, "ex": e} for i, (k, h, e) in enumerate(
-        [("MBI", "config", ["key"]), ("SB21", "config", []), ("HAB", "config", []), ("BEE", "config", ["sw_key"]), ("OTFAD", "ctor", []),
+        [("MBI", "config", ["key"]), ("SB21", "config", []), ("SB21KW", "bd", []), ("SB21KW", "config", []), ("HAB", "config", []), ("BEE", "config", ["sw_key"]), ("OTFAD", "ctor", []),
          ("IEE", "ctor", []), ("HABRT", "ctor", []), ("HEX", "call", [])])]
     bounds = {"MC_ARTS": 2, "MC_EXPORTS": 2, "MC_PROCS": 2, "MC_MENU": "base"} if quick else {"MC_ARTS": 3, "MC_EXPORTS": 2, "MC_PROCS": 2, "MC_MENU": "base"}
     ib = {"MC_ARTS": 2, "MC_EXPORTS": 2, "MC_PROCS": 2, "MC_MENU": "base", "IMPL_TABLE": "asbuilt"}
@@ -710,7 +736,7 @@ def run(tier):
     for h in sim:
         take(h, "simulated")
     # long histories: every menu item alone, 70..130 constructions (some defects need many draws), and mixed ones
-    cost = {"SB21": 0.05, "MBI": 0.05, "HAB": 0.015}
+    cost = {"SB21": 0.05, "SB21KW": 0.06, "MBI": 0.05, "HAB": 0.015}
     longs = []
     for it in (menu_base if quick else menu_full):
         n = r.randrange(70, 131)
@@ -797,6 +823,8 @@ def run(tier):
     v.extra["drift_examples"] = drift[:10]
     v.extra["excused_after_known_finding"] = [list(x) for x in v.extra.pop("_excused", [])]
     v.extra["trusted_base"] = ["TLC", "harness/c17_child.py readers (struct offsets of SB2 / MBI / OTFAD / IEE / BEE / HAB CSF layouts)",
+                               "harness/c04_rom.py (independent SB2 boot-ROM executor: section decryption, command decoding) and harness/c13_hw.py otfad_load_table "
+                               "(RFC 3394 unwrap + CRC of an OTFAD key blob) for the key blobs wrapped by keywrap statements",
                                "cryptography: aes_key_unwrap, AES-ECB, AES-CBC (called directly)"]
     v.extra["exhaustive"] = not quick
     v.cov["rule"] = (
@@ -812,7 +840,12 @@ def run(tier):
     v.assumptions += [
         "a value counts as shared when two artefacts carry the same byte string in a secret-bearing field (attributes / exported bytes); equal values inside ONE artefact and two exports of the same object are not asserted",
         "OTFAD / IEE through load_from_config are outside the menu: every key and counter is mandatory in the configuration and the OTFAD filler is fixed to zero there (nothing is self-chosen)",
-        f"the 4-byte OTFAD key-blob filler is asserted only in histories of <= {NARROW_MAX_ARTS} constructions (birthday bound 2^-32 per pair; wider fields everywhere)",
+        f"the 4-byte OTFAD key-blob filler (key blobs built through the class, key blobs wrapped by the keywrap statements of an SB2.1 command file) is asserted only in "
+        f"histories of <= {NARROW_MAX_ARTS} constructions (birthday bound 2^-32 per pair; wider fields everywhere)",
+        "SB2.1 from a command file (kind SB21KW): BD text through BootImageV21.parse_sb21_config (BDParser) + load_from_config, and the YAML form as the dictionary "
+        "load_from_config takes (as for SB21 / config; reading and schema validation of a YAML file are not part of the build); two keyblob definitions, two keywrap "
+        "statements and one encrypt statement in one or two sections, no zeroPadding option (with it a constant filler is what the user asked for); key, counter and range "
+        "of a keyblob definition are mandatory there (the user's) and not observed; the two fillers inside ONE file are not compared with each other",
         "random alignment filler of SB2 load commands / sections and the SB1 format are not key material of the property's list and are not observed",
         "HAB: the encrypted image is built through HabContainer.load_from_config (YAML form); the legacy BootImgRT class is observed through dek_key / nonce only (no CSF, no export)",
         "re-use of one object is a step of the histories only where the public API has it: MasterBootImage.load_from_config is a method of the object (Reconfigure); "
